@@ -33,7 +33,7 @@ Tm0 == [t0 |-> 0, t1 |-> 0]
 WriteSet ==
   {"SET", "DEL", "EXPIRE", "INCR", "DECR", "INCRBY", "DECRBY", "SETNX", "SETEX", "PSETEX", "FLUSHDB", "FLUSHALL",
    "LPUSH", "RPUSH", "LPOP", "RPOP", "LSET", "LREM", "LTRIM", "SADD", "SREM", "SPOP", "HSET", "HDEL", "HINCRBY",
-   "ZADD", "ZREM", "ZINCRBY", "ZPOPMIN", "ZPOPMAX", "XADD", "XTRIM", "XDEL", "XGROUP", "XACK", "XCLAIM",
+   "ZADD", "ZREM", "ZINCRBY", "ZPOPMIN", "ZPOPMAX", "XADD", "XTRIM", "XDEL", "XGROUP", "XACK", "XCLAIM", "XREADGROUP",
    "MSET", "APPEND", "SETRANGE", "RENAME", "RENAMENX", "PERSIST", "EVAL", "EVALSHA", "GETSET", "HMSET", "PEXPIRE"}
 PinnedWriteSet == WriteSet \ {"GETSET", "HMSET", "PEXPIRE"}
 
